@@ -96,7 +96,7 @@ theorem composite_no_repeat (rs : List Nat) (acc : List (Option Int)) (s : State
     simp only [compDispLoop]
     split
     · apply ih
-      · intro r' h'; exact hrs r' (by simp [h'])
+      · intro r' h'; simp only [State.setObj, List.length_set]; exact hrs r' (by simp [h'])
       · simpa using hacc
     · rename_i hcand
       have hne : setdiff (uniqueLabels (s.obj r).labels) (acc.filterMap id) ≠ [] := by
